@@ -100,7 +100,7 @@ def after_exit(ctx, radio, what):
     ctx.check(radio.ce == False, what + ": leaving a block leaves CE low")  # noqa: E712
 
 
-def h_blocks(ctx, kind_a, kind_b, calls_a, call_b):
+def h_blocks(ctx, kind_a, kind_b, calls_a, call_b, kind_c=None):
     def urandom(n):
         return ctx.bytes("urandom%d" % len(rnd), n) if not rnd.append(1) else None
     rnd = []
@@ -135,12 +135,28 @@ def h_blocks(ctx, kind_a, kind_b, calls_a, call_b):
                 pass
         last_b = snap(radio)
     after_exit(ctx, radio, "B's block")
+    if kind_c is not None:  # a third object established and used between the other two
+        c3 = make(kind_c, radio)
+        last_c = snap(radio)
+        with c3:
+            same(ctx, snap(radio), last_c, "first entry of C")
+            gen, do = calls_of(kind_c)["channel"]
+            try:
+                do(c3, gen(ctx, "c_channel"))
+            except (ValueError, IndexError):
+                pass
+            last_c = snap(radio)
+        after_exit(ctx, radio, "C's block")
     with a:
         same(ctx, snap(radio), last_a, "re-entry of A")
     after_exit(ctx, radio, "A's second block")
     with b:
         same(ctx, snap(radio), last_b, "re-entry of B")
     after_exit(ctx, radio, "B's second block")
+    if kind_c is not None:
+        with c3:
+            same(ctx, snap(radio), last_c, "re-entry of C")
+        after_exit(ctx, radio, "C's second block")
     with a:
         same(ctx, snap(radio), last_a, "third entry of A")
     ctx.observe("a", [last_a[k] for k in sorted(last_a, key=str)])
@@ -168,6 +184,13 @@ def jobs(tier):
     for s in [(n,) for n in rf][:: (1 if tier == "thorough" else 3)] + trip[:3]:
         for kb in ("ble", "net", "mesh"):
             out.append(Job("two-objects", h_blocks, dict(kind_a="rf24", kind_b=kb, calls_a=list(s), call_b="channel"), cost=3))
+    three = [("rf24", "ble", "net"), ("net", "rf24", "ble"), ("ble", "mesh", "rf24"), ("rf24", "rf24", "mesh"), ("mesh", "net", "ble")]
+    for ka, kb, kc in three:
+        for call in (("channel", "pa_level", "listen_off") if ka != "rf24" else ("channel", "data_rate", "open_tx_pipe5", "listen_on")):
+            if call not in calls_of(ka):
+                continue
+            out.append(Job("three-objects", h_blocks, dict(kind_a=ka, kind_b=kb, calls_a=[call],
+                                                           call_b="scramble" if kb == "rf24" else "channel", kind_c=kc), cost=6))
     for ka, table in (("ble", BLE_CALLS), ("net", NET_CALLS), ("mesh", NET_CALLS)):
         for n in table:
             if ka == "mesh" and n == "node_address":
@@ -182,9 +205,9 @@ META = {
     "bounds": {"quick": "A = RF24 with every single call of the C03 alphabet, all ordered pairs inside the PIPES and CONFIG groups "
                         "and 8 triples (symbolic arguments), B = RF24 rewriting every configuration register with symbolic "
                         "values; A = RF24 against B = FakeBLE / RF24Network / RF24Mesh; A = FakeBLE / RF24Network / RF24Mesh "
-                        "(class-appropriate calls) against B of another class; schedule A, B, A, B, A",
+                        "(class-appropriate calls) against B of another class; schedule A, B, A, B, A; five class mixes of three objects (schedule A, B, C, A, B, C)",
                "thorough": "all pairs of all groups, all PIPES triples, every class pair"},
-    "outside": ["three objects at once (the restoration argument is per object: the third object is another B)",
+    "outside": ["more than three objects; a third object is exercised for 5 class mixes only",
                 "blocks with more than 3 calls", "non-register state (FakeBLE name / show_pa_level are reset by design)",
                 "FIFO contents and status flags (not configuration)"],
     "assumptions": ["configuration registers = CONFIG, EN_AA, EN_RXADDR, SETUP_AW, SETUP_RETR, RF_CH, RF_SETUP, RX_ADDR_P0-5, "
